@@ -67,13 +67,15 @@ PROPS = {
                 slices=[S("par", 14, 160, ["corr", "loginv", "sconverge", "refused_noop"])],
                 race=dict(profile="par", cases=6), assumptions=SERVICE_ASSUMPTIONS[:1] + ["the serial order is derived from the responses (per key by committed end of log; pullers after the pusher that produced their end)", "data races / runtime deadlocks are looked for (race detector, deadline) but not excluded by proof"]),
     "C13": dict(lean=["Orda.Props.C13"], rule="non-trivial: a case exercises ≥2 entry modes on one key, or a refusal (create on existing / subscribe to missing / other type); distinct command sequences",
-                slices=[S("svc", 70, 1000, ["corr", "contract", "sconverge", "loginv"]), S("mut", 40, 600, ["corr", "contract", "refused_noop"])], assumptions=SERVICE_ASSUMPTIONS),
+                slices=[S("svc", 70, 1000, ["corr", "contract", "sconverge", "loginv"]), S("mut", 40, 600, ["corr", "contract", "refused_noop"]), S("par", 8, 100, ["corr", "contract", "loginv"])], assumptions=SERVICE_ASSUMPTIONS),
     "C16": dict(lean=["Orda.Props.C16"], rule="non-trivial: the case contains ≥1 mutated request that was refused and ≥1 later accepted request of the same client; distinct command sequences",
                 slices=[S("mut", 90, 1500, ["corr", "refused_noop", "usable_after_refusal", "loginv"])], assumptions=SERVICE_ASSUMPTIONS),
     "C17": dict(lean=["Orda.Props.C17"], rule="non-trivial: ≥2 collections hold datatypes under the same key and a request named a foreign collection or carried a foreign datatype id; distinct command sequences",
                 slices=[S("iso", 80, 1200, ["corr", "isolation", "loginv", "refused_noop"])], assumptions=SERVICE_ASSUMPTIONS),
     "C18": dict(lean=["Orda.Props.C18"], rule="non-trivial: the case has both pushes that stored operations and pull-only syncs; every request framed by two store dumps is checked; distinct command sequences",
-                slices=[S("svc", 70, 1000, ["corr", "notify"]), S("fault", 40, 600, ["corr", "notify"])], assumptions=SERVICE_ASSUMPTIONS),
+                slices=[S("svc", 70, 1000, ["corr", "notify"]), S("fault", 40, 600, ["corr", "notify"]), S("rt", 14, 250, ["rt_converge"])],
+                race=dict(profile="rt", cases=6),
+                assumptions=SERVICE_ASSUMPTIONS + ["rt slice: real clients in realtime mode (the library's own SyncManager over gRPC on 127.0.0.1, NotifyManager over MQTT to the broker stand-in, DatatypeManager), 2..5 clients, 1..6 operations each from their own goroutines with random pauses, broker delay 0..5 ms; deadline 2.5 s for convergence without any Sync call; the run is not reproducible step by step (real goroutine scheduling): the model side of this slice is the regenerated guard record Gen.rtFacts"]),
 }
 
 
@@ -111,7 +113,7 @@ def nontrivial(pid, case):
             return len(set(ln.get("c") for ln in par if any((p or {}).get("ops") for p in ln.get("obs", {}).get("req", []) or []))) >= 2
         if pid == "C11":
             ks2 = [ln.get("k") for ln, _ in case]
-            held = [i for i, (ln, _) in enumerate(case) if ln.get("k") == "sync" and ln.get("fault") == "holdsnap"]
+            held = [i for i, (ln, _) in enumerate(case) if ln.get("k") == "sync" and ln.get("fault") in ("holdsnap", "holdbg")]
             return bool(held) and "applylate" in ks2 and "snapcheck" in ks2 if hdr.get("profile", "snap11") != "rest" else "snapcheck" in ks2 or "patch" in ks2
         if pid == "C08":
             return "fault" in hdr
@@ -124,6 +126,8 @@ def nontrivial(pid, case):
         if pid == "C18":
             return any(ln.get("obs", {}).get("notifs") for ln in syncs) and any(not ln.get("obs", {}).get("notifs") for ln in syncs)
         return len(pushers) >= 2
+    if hdr.get("k") == "rtcase":
+        return hdr.get("n", 0) >= 2 and hdr.get("ops", 0) >= 1
     if hdr.get("k") != "case":
         return True
     return remote > 0 and oks > 1
